@@ -8,7 +8,7 @@ from . import common as C
 ID = 'C11'
 LEVEL = C.LEVEL
 EXPLANATION = C.EXPLANATION + '; every update uses fresh symbolic variables, so an evaluation that still depends on an older update (stale cache) or on POISON (uninitialised buffer) is a different DAG node than the fresh object\'s'
-ASSUMPTIONS = ['operation sequences up to length 3 over {evaluate at order k, update same shape, update other segment count, update other coefficient count (crossing 8), update to a second other coefficient count (both above 8 for the dynamic types), rejected update, copy, assign, derivative()} enumerated exhaustively; data symbolic',
+ASSUMPTIONS = ['operation sequences up to length 3 over {evaluate at order k, update same shape, update other segment count, update other coefficient count (crossing 8), update to a second other coefficient count (both above 8 for the dynamic types), rejected update, copy, assign over a warm object, self-assignment + destroyed copy, derivative()} enumerated exhaustively; data symbolic',
                'data-dependent branches (none in the unchanged code) are explored by the path explorer', 'UF = bit-identity on Eigen scalar paths']
 FUNCTIONS = ['PPolyND::update/initializeInternal', 'invalidateDerivativeCaches', 'ensureDerivativeCoefficients/buildDerivativeCoefficients', 'ensureDerivativeFactorTable/buildDynamicDerivativeFactorTable',
              'copy constructor / copy assignment (implicit)', 'derivative()', 'Segment::evaluate', 'evaluate(t,k)', 'Spline::update -> initializePPoly -> getTrajectory()']
@@ -20,7 +20,7 @@ TYPES = {'2dyn': (2, -1), '3f6': (3, 6), '1f12': (1, 12)}
 # shapes (segments, coefficients) per type: base, same, other segment count, other coefficient count, a second other coefficient count
 # (so that sequences move between two counts above the static-table limit 8 in both directions: 4->12->9, 9->12->9, 12->9)
 SHAPES = {'2dyn': [(2, 4), (2, 4), (3, 4), (2, 9), (2, 12)], '3f6': [(2, 6), (2, 6), (1, 6), (2, 4), (3, 5)], '1f12': [(2, 9), (2, 9), (3, 9), (2, 4), (2, 12)]}
-OPS = ['E0', 'E1', 'E2', 'Us', 'Ug', 'Uc', 'Ud', 'Ub', 'CP', 'AS', 'DV', 'EG']
+OPS = ['E0', 'E1', 'E2', 'Us', 'Ug', 'Uc', 'Ud', 'Ub', 'CP', 'AS', 'DV', 'EG', 'SA']
 
 
 def bounds(tier):
@@ -118,6 +118,11 @@ class Gen:
             s.add('pp.seg', q, 'idx 0 tl 1 junk%d' % len(s.lines))
             s.add('pp.assign', q, 'P')
             self.state[q] = self.state['P']
+        elif o == 'SA':
+            # self-assignment, and a copy that is destroyed again (its source must not notice)
+            s.add('pp.selfassign P')
+            s.add('pp.copy TMPC P')
+            s.add('pp.destroy TMPC')
         elif o == 'DV':
             if self.state['P'] is not None:
                 s.add('pp.deriv DVX P 1')
